@@ -71,6 +71,21 @@ theorem C10_exactly_once (c : Config) (hc : Reachable c) (t l : Nat) :
   have hpos : 0 < (c.ls l).recvd.count ⟨t, (c.ss t).cur⟩ := List.count_pos_iff.mpr hmem
   omega
 
+/-- non-vacuity of `C10_exactly_once`: a schedule that reaches its hypotheses (one listener, one Send) -/
+example :
+    let c := run (init fun _ => 1)
+      [.lSpawn 0, .lRegister 0, .sSnapshot 0, .sAcquire 0, .recvReq 0, .sDeliver 0, .sRelease 0]
+    (c.ss 0).pc = .loop ∧ (c.ss 0).rest = [] ∧ 0 ∈ (c.ss 0).snap ∧ (c.ls 0).cancelled = false ∧
+      (c.ls 0).recvd = [⟨0, 1⟩] := by decide
+
+/-- …and a schedule in which the listener is cancelled during the send: the event is not delivered, the
+call still returns `true` (`results = [true]`) and the dead listener is collected. -/
+example :
+    let c := run (init fun _ => 1)
+      [.lSpawn 0, .lRegister 0, .sSnapshot 0, .sAcquire 0, .cancel 0, .sListenCancelled 0, .sRelease 0,
+       .sFinish 0, .sCollect 0]
+    (c.ss 0).results = [true] ∧ (c.ls 0).recvd = [] ∧ c.bus = [] := by decide
+
 /-- A cancelled listen context stays cancelled under every move (so "not cancelled at the end of the
 send" means "live for the whole send"). -/
 theorem C10_cancelled_stable (c : Config) (m : Move) (l : Nat) :
@@ -161,6 +176,28 @@ theorem C10_cancel_releases (c : Config) (hc : Reachable c) (l : Nat)
         · refine Or.inr ?_
           simp only [step, hrest, h]
           split <;> simp
+
+/-- non-vacuity of `C10_cancel_releases`: the watcher waits for the write lock while a sender, parked
+inside `listener.send`, still holds the read lock — the situation the K4 tie observes on the real code. -/
+example :
+    let c := run (init fun _ => 1)
+      [.lSpawn 0, .lRegister 0, .sSnapshot 0, .sAcquire 0, .cancel 0, .wAwake 0, .wLockReq 0, .wLockAcq 0]
+    (c.ls 0).cancelled = true ∧ (c.ls 0).wpc = .wait ∧ (c.ls 0).readers = [0] ∧
+      (step c (.sListenCancelled 0)).isSome = true ∧ (step c (.wLockAcq 0)).isSome = false := by decide
+
+/-- The waiting watcher cannot be starved: while it waits for the write lock (`wpc = wait`), no step of
+anybody adds a reader to `l` (a queued `Lock` makes new `RLock` calls wait), so the set of readers it
+waits for only shrinks; each of them has at most its `select` step and its `RUnlock` left (previous
+theorem: both enabled once `l` is cancelled). -/
+theorem C10_waiting_watcher_not_starved (c c' : Config) (hc : Reachable c) (m : Move) (l : Nat)
+    (hw : (c.ls l).wpc = .wait) (hs : step c m = some c') :
+    ∀ t, t ∈ (c'.ls l).readers → t ∈ (c.ls l).readers := by
+  have hwait := hc.inv.lock.wait l
+  rw [hw] at hwait
+  cases m <;> simp only [step] at hs <;> (repeat' (split at hs)) <;>
+    first
+      | (cases hs; done)
+      | (simp only [Option.some.injEq] at hs; subst hs; bus_auto)
 
 /-- The watcher's own steps strictly decrease `wsteps`, and no step of anybody else (senders, consumers,
 other listeners, cancels) changes it: the watcher terminates after at most six of its own steps. -/
